@@ -2,6 +2,7 @@ import LJT.Ops.Util
 import LJT.Model.DecompCtl
 import LJT.Model.SkipSM
 import LJT.Model.MergedSM
+import LJT.Model.CtxSM
 namespace LJT.Ops
 open LJT.DecompCtl
 
@@ -51,13 +52,36 @@ def mskipstRun (c : Skip.Cfg) : Skip.MSt → List String → Option (List String
       let more ← mskipstRun c s' rest
       some (s!"{ret}:{s'.y}:{s'.irow}:{if s'.bf then 1 else 0}:{s'.rg}:{if s'.spare then 1 else 0}:{s'.rtg}" :: more)
 
+def cskipstTok (c : Skip.Cfg) (s : Skip.CSt) (tok : String) : Option (Skip.CSt × Nat) := do
+  let n0 ← nat? (tok.drop 1).toString
+  let n := min n0 64
+  match tok.take 1 |>.toString with
+  | "s" => let r := Skip.cskip c s n; some (r.1, r.2)
+  | "m" => let r := Skip.cread c s n; some (r.1, r.2.length)
+  | "r" =>
+    let rec go (k : Nat) (s : Skip.CSt) (acc : Nat) : Skip.CSt × Nat :=
+      match k with
+      | 0 => (s, acc)
+      | k + 1 => if c.H ≤ s.y then (s, acc) else let r := Skip.cread c s 1; go k r.1 (acc + r.2.length)
+    some (go n s 0)
+  | _ => none
+
+def cskipstRun (c : Skip.Cfg) : Skip.CSt → List String → Option (List String)
+  | _, [] => some []
+  | s, tok :: rest =>
+    if c.H ≤ s.y then some [] else do
+      let (s', ret) ← cskipstTok c s tok
+      let more ← cskipstRun c s' rest
+      some (s!"{ret}:{s'.y}:{s'.irow}:{if s'.bf then 1 else 0}:{s'.rg}:{s'.cs}:{s'.which}:{s'.ictr}:{s'.nro}:{s'.rtg}" :: more)
+
 def opC08 : List String → Option String
   | "skipst" :: ss :: _w :: h :: _prog :: snum :: _fancy :: _ycc :: upm :: _seed :: calls => do
     let ss ← nat? ss; let h ← nat? h; let snum ← nat? snum
     let v := [1, 1, 2, 1, 2, 1, 4].getD ss 1
     let c : Skip.Cfg := ⟨snum, v, outputDim h snum 8⟩
-    let recs ← if upm = "1" then mskipstRun c (Skip.minit c) calls else skipstRun c (Skip.init c) calls
-    some (s!"{if upm = "1" then "merged" else "sep"} {c.M} {c.v} {c.H} |" ++ String.join (recs.map (" " ++ ·)))
+    let recs ← if upm = "1" then mskipstRun c (Skip.minit c) calls
+      else if upm = "2" then cskipstRun c (Skip.cinit c) calls else skipstRun c (Skip.init c) calls
+    some (s!"{if upm = "1" then "merged" else if upm = "2" then "context" else "sep"} {c.M} {c.v} {c.H} |" ++ String.join (recs.map (" " ++ ·)))
   | ["outdim", w, h] => do
     let w ← nat? w; let h ← nat? h
     some (" ".intercalate (Gen.tjScalingFactors.map (fun (n, d) => s!"{outputDim w n d}:{outputDim h n d}")))
